@@ -193,7 +193,9 @@ func buildSchema() *graphql.Schema {
 
 // costExpr is a field's cost with the arguments substituted: a function of the context value only.
 type costExpr struct {
-	Src  string // "t" typename | "d" no cost function | "c" cost function
+	Src  string // "t" typename | "d" no cost function | "c" cost function | "conn" defaultConnectionCost | "edges"
+	// conn: what ctx.Arguments holds for first / last: "absent" | "null" | decimal integer
+	First, Last string
 	RCtx bool   // Resolver is the context value
 	R    int
 	MCtx bool // Multiplier is the context value
@@ -236,6 +238,37 @@ func resolveArg(f *ast.Field, name string, coerced map[string]interface{}) (int,
 	return def, hasDef
 }
 
+// argState says what ctx.Arguments[name] holds for an integer argument: "absent" (no key), "null"
+// (key present, nil value: explicit null literal or null-valued variable) or the integer.
+func argState(f *ast.Field, name string, coerced map[string]interface{}) string {
+	for _, a := range f.Arguments {
+		if a.Name.Name != name {
+			continue
+		}
+		switch v := a.Value.(type) {
+		case *ast.IntValue:
+			return v.Value
+		case *ast.NullValue:
+			return "null"
+		case *ast.Variable:
+			cv, ok := coerced[v.Name.Name]
+			if !ok {
+				break // a variable without a value: as if the argument were omitted
+			}
+			if n, isInt := cv.(int); isInt {
+				return strconv.Itoa(n)
+			}
+			return "null"
+		default:
+			return "null"
+		}
+	}
+	if def, ok := argDefaults[f.Name.Name][name]; ok {
+		return strconv.Itoa(def)
+	}
+	return "absent"
+}
+
 // expectedCost is the harness's statement of what the schema's cost function returns for a field.
 func expectedCost(f *ast.Field, inIntrospection bool, coerced map[string]interface{}) costExpr {
 	name := f.Name.Name
@@ -274,10 +307,19 @@ func expectedCost(f *ast.Field, inIntrospection bool, coerced map[string]interfa
 	case "node":
 		return costExpr{Src: "c", R: 1} // the edge field the harness's connection declares with FieldResolverCost(1)
 	case "edges":
-		return costExpr{Src: "c", MCtx: true} // pagination.go:434-442
+		return costExpr{Src: "edges", MCtx: true} // pagination.go:434-442
+	case "things", "thingsF", "thingsB": // apifu.Connection with defaultConnectionCost (pagination.go:226-235)
+		e := costExpr{Src: "conn", R: 1, Set: true, First: argState(f, "first", coerced), Last: argState(f, "last", coerced)}
+		// the harness's own reading: an int `last` decides, else an int `first`, else 0 — null is not an int
+		if n, err := strconv.Atoi(e.Last); err == nil {
+			e.C = n
+		} else if n, err := strconv.Atoi(e.First); err == nil {
+			e.C = n
+		}
+		return e
 	case "totalCount":
 		return costExpr{Src: "d"}
-	case "k", "things": // things: apifu.Connection with defaultConnectionCost (pagination.go:226-235)
+	case "k":
 		e := costExpr{Src: "c", R: 1, Set: true}
 		e.C, _ = resolveArg(f, "first", coerced)
 		if last, ok := resolveArg(f, "last", coerced); ok {
